@@ -25,6 +25,7 @@ RES_FORMS = ['list', 'list', 'list', 'tuple', 'generator', 'iterator', 'dict-val
 
 @st.composite
 def fwd_case(draw, max_tasks=8, fixed=True, late_clock=True, balance=None, taskdep=False, end_only=False, **kw):
+    kw.setdefault('summary_milestones', True)
     spec = draw(specs.wbs_spec(max_tasks=max_tasks, **kw))
     m = Model(spec)
     rs = draw(specs.resources_spec())
@@ -61,10 +62,22 @@ def fwd_case(draw, max_tasks=8, fixed=True, late_clock=True, balance=None, taskd
     if m.order and draw(st.integers(0, 5)) == 0:
         # dated predecessors outside the WBS (some with the id of a member)
         ext = []
+        detours = []
         for k in range(draw(st.integers(1, 2))):
             e0 = P + timedelta(days=draw(st.integers(-20, 6)), hours=draw(st.sampled_from([0, 0, 15])))
             ext.append(dict(id=draw(st.sampled_from([100 + k, draw(st.sampled_from(m.order))])), start=iso(e0 - timedelta(days=2)), end=iso(e0),
                             succ=[draw(st.sampled_from(m.order))], in_wbs=draw(st.booleans())))
+            e = ext[-1]
+            if draw(st.integers(0, 2)) == 0:
+                # the outside task waits for a member itself (member -> outside -> member), provided the detour closes no circle
+                a = draw(st.sampled_from(m.order))
+                b = e['succ'][0]
+                if a != b and a not in m.ancestors(b) and b not in m.ancestors(a) and \
+                        Model(dict(spec, links=spec['links'] + detours + [[a, b]])).leaf_acyclic():
+                    e['pred'] = [a]
+                    detours.append([a, b])
+            e['ext_pred'] = draw(st.integers(0, 3)) == 0
+            e['milestone'] = draw(st.integers(0, 4)) == 0
         spec['ext'] = ext
     if draw(st.integers(0, 5)) == 0:
         spec['subclass'] = True
@@ -76,6 +89,7 @@ def fwd_case(draw, max_tasks=8, fixed=True, late_clock=True, balance=None, taskd
 @st.composite
 def bwd_case(draw, max_tasks=8, balance=None, taskdep=False, **kw):
     kw.setdefault('min_start', False)
+    kw.setdefault('summary_milestones', True)
     spec = draw(specs.wbs_spec(max_tasks=max_tasks, **kw))
     rs = draw(specs.resources_spec(backward=True))
     specs.clamp_work(spec, rs, factor=30)
@@ -611,7 +625,8 @@ def c09(o, v, facts=None):
         due = min(succ_starts) if succ_starts else E
         if facts is not None and succ_starts and not m.succs[i]:
             facts['due-date-inherited'] += 1
-        d = day(T['end']) + DAY
+        # an end exactly at a midnight closes the day before: that midnight's own day counts as lying after the end
+        d = day(T['end']) if T['end'] == day(T['end']) else day(T['end']) + DAY
         while d < day(due):
             if abs(o.used[(rn, d)] - cap(o, rn, d)) > EPS:
                 v('C09:not-late-packed(idle-day-between-end-and-due-date)', dict(task=i, day=d, end=T['end'], due=due))
